@@ -958,8 +958,37 @@ def check_C08(chk):
             c = next(x for x in cases if x["id"] == r["id"])
             if not r["accepted"].get("ok") or r["seqs"] != list(range(len(c["sizes"]))) or r["ended"] != "Disconnected":
                 fails.append((dict(c, build="inprocess"), r, "in-process transport: accept/receive gave %s ended=%s" % (r["seqs"], r["ended"])))
+    # in-process build: replay on the InprocSrv LTS (registry of server records, accept() statement by statement) along the
+    # canonical schedule of the scenario
+    itodo = []
+    acc = "IAcc1; IAcc2; IAcc3; IAcc4; IAcc5"
+    for r in irecs:
+        if r.get("kind") == "server" and r["accepted"].get("ok"):
+            c = next(x for x in cases if x["id"] == r["id"])
+            n = len(c["sizes"])
+            mid = max(1, n // 2) if c["order"] == "mid" else n
+            if c["order"] == "accept_first":
+                pre = ["INew", "IAcc1", "IConnect", "IAcc2", "IAcc3", "IAcc4", "ISend 0", "IAcc5"] + ["ISend %d" % q for q in range(1, n)] + ["IDropTx"]
+            else:
+                pre = ["INew", "IConnect"] + ["ISend %d" % q for q in range(mid)] + (["IDropTx"] if mid == n else []) + acc.split("; ") + \
+                      ["ISend %d" % q for q in range(mid, n)] + (["IDropTx"] if mid < n else [])
+            pre += ["IRecv"] * n
+            itodo.append((len(itodo), "check_isrv [%s] true [%s] %s" % ("; ".join(pre), "; ".join(str(x) for x in r["seqs"]), "true" if r["ended"] == "Disconnected" else "false"), r))
+        elif r.get("kind") == "noshow" and r["accept"] != "hang":
+            pre = (["INew", "IAcc1", "IConnect", "IDropTx", "IAcc2", "IAcc3", "IAcc4", "IAcc5"] if r["order"] == "accept_first"
+                   else ["INew", "IConnect", "IDropTx"] + acc.split("; "))
+            itodo.append((len(itodo), "check_isrv [%s] %s [] false" % ("; ".join(pre), "true" if r["accept"].startswith("Ok") else "false"), r))
+    iheader = "From Coq Require Import List Bool.\nFrom IPC Require Import InprocSrv InprocSrvCheck.\nImport ListNotations.\n"
+    ires, ierrors = C.coq_eval_sharded(iheader, [(i, t) for i, t, _ in itodo], lambda p: "Eval vm_compute in (%d, %s)." % p, "c08inproc", shard=40)
+    ibad = [r for i, t, r in itodo if ires.get(i) != "true"]
+    chk.coverage["inproc_server_scenarios_replayed"] = len(itodo)
+    if ierrors:
+        chk.unproved("model evaluation (coqc on generated in-process server cases) failed", ierrors[0][-1500:])
     for c, r, why in fails[:8]:
         chk.failing_input(why, {"scenario": c, "observed": r}, key=str(c)[:300])
+    if ibad and not fails:
+        chk.unproved("correspondence InprocSrvCheck.check_isrv: the in-process build's accept / receive results differ from the InprocSrv LTS on %d of %d scenarios" % (len(ibad), len(itodo)),
+                     {"observed": ibad[0]})
     header = "From Coq Require Import List Bool.\nFrom IPC Require Import Server ServerCheck.\nImport ListNotations.\n"
     res, errors = C.coq_eval_sharded(header, todo, lambda p: "Eval vm_compute in (%d, %s)." % p, "c08", shard=40)
     bad = [cases[i] for i, _ in todo if res.get(i) != "true"]
@@ -969,11 +998,12 @@ def check_C08(chk):
     cov["evaluations"] = len(cases) + 1 + len(ilines)
     cov["traces_validated_against_impl"] = len(todo)
     cov["distinct_nontrivial"] = len({(c["order"], c["client"], len(c["sizes"])) for c in cases if len(c["sizes"]) > 1})
-    cov["correspondence_mismatches"] = len(bad)
+    cov["correspondence_mismatches"] = len(bad) + len(ibad)
     cov["listen_backlog_seen"] = sorted({r.get("backlog") for r in listens})
     cov["rule"] = ("server driver: orders {accept first, client connects + sends everything + exits before accept, accept in the middle of the client's messages} x client as thread, "
                    "forked child, spawned process x 1..20 messages of mixed single/multi-packet sizes with an embedded sender in the first; 200 servers alive at once (distinct names, "
-                   "clean drop); after accept: socket file, temp dir and descriptors gone; the receiver's message sequence compared with the Server LTS; in-process build too; "
+                   "clean drop); clients that connect and never send; after accept: socket file, temp dir and descriptors gone; the receiver's message sequence compared with the Server LTS; "
+                   "in-process build: same scenarios with a thread client, replayed on the InprocSrv LTS; "
                    "non-trivial = more than one message")
     for c in cases[:2]:
         chk.sample({"scenario": c, "observed": by.get(c["id"]) and {k: by[c["id"]][k] for k in ("seqs", "ended")}})
